@@ -189,7 +189,7 @@ pub fn gen(idx: u64, rng: &mut Rng, _tier: Tier) -> Scn {
     );
     // a stoppable object of the highest-priority queue removed right at the end of its first transfer (between its last
     // packet and the next poll): the queue goes on with its next object at once
-    if rng.chance(0.12) {
+    if rng.chance(0.3) {
         let top = s.spec.queues.iter().map(|q| q.0).min().unwrap_or(0);
         let x = (0..s.objects.len()).find(|i| {
             let o = &s.objects[*i];
@@ -203,7 +203,7 @@ pub fn gen(idx: u64, rng: &mut Rng, _tier: Tier) -> Scn {
                 (symbols, (symbols + oti.b as u64 - 1) / oti.b as u64, oti.parity as u64)
             };
             s.objects[x].immediate_stop = Some(true);
-            let k = (1 + symbols + blocks * parity) as i64 + *rng.pick(&[-1i64, 0, 0, 0, 1]);
+            let k = (1 + symbols + blocks * parity) as i64 + *rng.pick(&[-1i64, 0, 0, 0, 0, 0, 1]);
             s.ops.push(TimedOp { when: When::AfterPkt(k.max(1) as u64), op: Op::Remove(x) });
         }
     }
